@@ -25,8 +25,12 @@ def jobs(only):
     return out
 
 def main():
-    ap = argparse.ArgumentParser(); ap.add_argument("--workers", type=int, default=4); ap.add_argument("--only"); a = ap.parse_args()
-    q = jobs(a.only); res = []; lock = threading.Lock()
+    ap = argparse.ArgumentParser(); ap.add_argument("--workers", type=int, default=4); ap.add_argument("--only"); ap.add_argument("--props", default=""); a = ap.parse_args()
+    q = jobs(a.only)
+    if a.props:
+        want = set(a.props.upper().split(","))
+        q = [j for j in q if j[1] in want]
+    res = []; lock = threading.Lock()
     def work():
         while True:
             with lock:
